@@ -85,6 +85,19 @@ PAIR_DOCS = [
     # the svg namespace bound to a prefix, another namespace as the default: what counts as a foreign attribute must not
     # depend on which documents were converted before
     '<s:svg xmlns:s="http://www.w3.org/2000/svg" xmlns="http://www.w3.org/1999/xhtml" viewBox="0 0 100 100"><s:rect width="30" height="20" fill="red"/><s:circle r="9" cx="50" cy="50"/></s:svg>',
+    # stops that carry ids, their gradient used by a transformed shape only (the copy written for the shape is the one that survives)
+    '<svg xmlns="http://www.w3.org/2000/svg" viewBox="0 0 100 100"><defs><linearGradient id="ids" x2="0.7"><stop id="s1" offset="0" stop-color="red" stop-opacity="0.5"/>'
+    '<stop id="s2" stop-opacity="0.9" stop-color="blue" offset="1"/></linearGradient></defs><rect width="40" height="30" fill="url(#ids)" transform="rotate(7) scale(1.3 0.8)"/></svg>',
+    # a template chain that fails two links down ...
+    '<svg xmlns="http://www.w3.org/2000/svg" xmlns:xlink="http://www.w3.org/1999/xlink" viewBox="0 0 100 100"><defs><linearGradient id="top" xlink:href="#mid"/>'
+    '<linearGradient id="mid" xlink:href="#gone"/></defs><rect width="30" height="20" fill="url(#top)" transform="translate(3 4)"/></svg>',
+    # ... a chain that loops two links down ...
+    '<svg xmlns="http://www.w3.org/2000/svg" xmlns:xlink="http://www.w3.org/1999/xlink" viewBox="0 0 100 100"><defs><linearGradient id="top" xlink:href="#mid"/>'
+    '<linearGradient id="mid" xlink:href="#top"/></defs><rect width="30" height="20" fill="url(#top)" transform="translate(3 4)"/></svg>',
+    # ... and sound chains over the same ids
+    '<svg xmlns="http://www.w3.org/2000/svg" xmlns:xlink="http://www.w3.org/1999/xlink" viewBox="0 0 100 100"><defs><linearGradient id="mid" x2="0.4"><stop offset="0" stop-color="red"/>'
+    '<stop offset="1" stop-color="lime"/></linearGradient><linearGradient id="low" xlink:href="#mid"/><linearGradient id="other" xlink:href="#top"/><linearGradient id="top" xlink:href="#mid" x1="0.2"/></defs>'
+    '<rect width="30" height="20" fill="url(#low)" transform="translate(3 4)"/><rect y="30" width="30" height="20" fill="url(#other)"/></svg>',
     # stops outside [0, 1]
     '<svg xmlns="http://www.w3.org/2000/svg" viewBox="0 0 100 100"><defs><linearGradient id="o"><stop offset="-0.2" stop-color="red" stop-opacity="0.5"/><stop offset="0.5" stop-color="lime"/>'
     '<stop offset="130%" stop-color="blue" stop-opacity="0.9"/></linearGradient></defs><rect width="50" height="40" fill="url(#o)" transform="rotate(5)"/><rect width="5" height="4" fill="url(#o)"/></svg>',
